@@ -133,14 +133,48 @@ def searchCore (E : Engine) (dim : Nat) (m : VMap) (excl : List Nat) (q : List I
     List VHit :=
   if dim ≠ q.length then [] else addIDsToPostingsList m (E.searchExcl q k excl)
 
-/-- the `searchWithFilter` closure (flat index) -/
-def searchWithFilterCore (E : Engine) (dim : Nat) (m : VMap) (excl : List Nat) (numDocs : Nat)
+/-- the eligible documents that are not excluded (the fix of defect D12: the eligible set is the
+    caller's and may name documents of the handle's exclusion bitmap; those stay excluded) -/
+def liveEligible (exDocs eligible : List Nat) : List Nat :=
+  eligible.filter (fun d => !exDocs.contains d)
+
+/-- the `searchWithFilter` closure (flat index).  The two shortcuts (`len(eligible) == 0`,
+    `len(eligible) == numDocs`) look at the caller's list, before excluded documents are dropped. -/
+def searchWithFilterCore (E : Engine) (dim : Nat) (m : VMap) (excl exDocs : List Nat) (numDocs : Nat)
+    (q : List Int) (k : Nat) (eligible : List Nat) : List VHit :=
+  if dim ≠ q.length then [] else
+  if eligible.isEmpty then [] else
+  if eligible.length = numDocs then addIDsToPostingsList m (E.searchExcl q k excl) else
+  let incl := (liveEligible exDocs eligible).flatMap (docVecIDs m)
+  if incl.isEmpty then [] else addIDsToPostingsList m (E.searchIncl q k incl)
+
+/-- the closure as it was before the fix of D12: the include list is built from the caller's
+    eligible set as it is -/
+def searchWithFilterCoreD12 (E : Engine) (dim : Nat) (m : VMap) (excl : List Nat) (numDocs : Nat)
     (q : List Int) (k : Nat) (eligible : List Nat) : List VHit :=
   if dim ≠ q.length then [] else
   if eligible.isEmpty then [] else
   if eligible.length = numDocs then addIDsToPostingsList m (E.searchExcl q k excl) else
   let incl := eligible.flatMap (docVecIDs m)
   if incl.isEmpty then [] else addIDsToPostingsList m (E.searchIncl q k incl)
+
+/-! #### clustered (IVF) index: the id selector of a filtered search
+
+After the live eligible documents are known, the clustered branch hands the engine an id
+selector: with more than half of the vector-owning documents eligible an EXCLUSION selector
+(`NewIDSelectorNot`) over the vectors of every document of `docVecIDMap` that is not in the
+eligible bitset, otherwise an INCLUSION selector (`NewIDSelectorBatch`) over
+`vectorIDsToInclude`.  Which vectors the engine then looks at inside the probed clusters is the
+engine's business (not modelled); which ids the selector admits is zapx's. -/
+
+/-- the `ineligibleVectorIDs` loop over `docVecIDMap` -/
+def ineligibleVecIDs (m : VMap) (live : List Nat) : List Nat :=
+  (m.filter (fun p => !live.contains p.2)).map (·.1)
+
+/-- does the selector admit vector `id`?  (`useNot` = the ratio test came out above 0.5) -/
+def ivfSelects (useNot : Bool) (m : VMap) (live : List Nat) (id : Nat) : Bool :=
+  if useNot then !(ineligibleVecIDs m live).contains id
+  else (live.flatMap (docVecIDs m)).contains id
 
 /-- search with the complete table: a function of (index, q, k, ex) -/
 def search (E : Engine) (ix : VIndex) (q : List Int) (k : Nat) (ex : List Nat) : List VHit :=
@@ -149,7 +183,7 @@ def search (E : Engine) (ix : VIndex) (q : List Int) (k : Nat) (ex : List Nat) :
 def searchWithFilter (E : Engine) (ix : VIndex) (numDocs : Nat) (q : List Int) (k : Nat)
     (ex eligible : List Nat) : List VHit :=
   searchWithFilterCore E ix.dim (vecDocIDMap ix.content)
-    (vecIDsToExclude (vecDocIDMap ix.content) ex) numDocs q k eligible
+    (vecIDsToExclude (vecDocIDMap ix.content) ex) ex numDocs q k eligible
 
 /-- a field may have no vector index at all (`vecIndex == nil`): empty result -/
 def searchField (f : Option (Engine × VIndex)) (q : List Int) (k : Nat) (ex : List Nat) : List VHit :=
@@ -313,6 +347,6 @@ def Handle.search (h : Handle) (E : Engine) (dim : Nat) (q : List Int) (k : Nat)
 
 def Handle.searchWithFilter (h : Handle) (E : Engine) (dim numDocs : Nat) (q : List Int) (k : Nat)
     (eligible : List Nat) : List VHit :=
-  searchWithFilterCore E dim h.vmap h.excl numDocs q k eligible
+  searchWithFilterCore E dim h.vmap h.excl h.ex numDocs q k eligible
 
 end Zap.VecSearch
